@@ -642,6 +642,19 @@ func runC18Seq(w *mon.W, no int) {
 			}
 			l := len(h.node.data)
 			nl := []int{0, l / 2, l, l + 3}[r.Intn(4)]
+			if r.Intn(6) == 0 {
+				// a wstat that is refused as a whole (a rename is not offered by this file
+				// server) although it also carries a shorter length: the bytes must stay
+				err := s.s.WStat(ctx, f, p9p.Dir{Mode: ^uint32(0), Length: uint64(l / 2), Name: "renamed"})
+				trace = append(trace, fmt.Sprintf("s%d.WStat(%d,name=renamed,length=%d)", si, f, l/2))
+				w.Count("op:wstat-refused", 1)
+				if err == nil {
+					// a server that does rename would be fine too, but then the model no longer applies
+					bad("rename-accepted", "WStat with a new name succeeded on a file server that offers no rename")
+					return
+				}
+				continue
+			}
 			if r.Intn(4) == 0 {
 				// lengths far beyond the file, across the sign boundaries of 32- and 64-bit integers
 				huge := []uint64{1 << 31, 1<<32 + 1, 1<<62 + 7, 1 << 63, 1<<63 + uint64(l), ^uint64(0) - 1, ^uint64(0) - uint64(l) - 1}[r.Intn(7)]
